@@ -9,7 +9,7 @@ from pvmon.monitors import Obs
 from pvmon.props.common import suite_cases, run_suite_case, rng_for
 
 MANIFEST = {
-    "text": "Held on every observed run: (A) the Newton trace delivered by the guarded hook shows that each normally returned pipeflow ended every stage on an undamped, in-tolerance, finite step with net.converged set and finite results, and each PipeflowNotConverged stayed within its budget, left net.converged false and every result table without a number - also along histories of good and bad runs on one object, for feasible, infeasible, singular and NaN-producing nets in all four modes; (B) the real iteration driver fed with all scripted error/residual sequences up to the stated length agrees with a reference state machine of the documented damping rules.",
+    "text": "Held on every observed run: (A) the Newton trace delivered by the guarded hook shows that each normally returned pipeflow ended every stage on an undamped, in-tolerance, finite step with net.converged set and finite results, and each PipeflowNotConverged stayed within its budget, left net.converged false and every result table without a number - also along histories of good and bad runs on one object, for feasible, infeasible, singular and NaN-producing nets in all four modes, and every returned hydraulics run lies within the trace-implied bound of a tightly converged solve of the same network; (B) the real iteration driver fed with all scripted error/residual sequences up to the stated length agrees with a reference state machine of the documented damping rules.",
     "note": "The trace is observed through hook H2 (one event per Newton iteration after finalize_iteration); exception types other than PipeflowNotConverged are counted and shown, not judged, except crash types escaping from numpy/scipy.",
     "technique": "runtime monitoring: online trace checker on hook events of real runs + bounded-exhaustive scripted driving of the real newton_raphson against a reference state machine",
 }
